@@ -451,7 +451,8 @@ fn bounds(p: P, tier: Tier) -> Bounds {
 }
 
 fn doc_tok_atoms(d: &Delims, n: &Names) -> Vec<String> {
-    let mut v: Vec<String> = vec![" ".into(), "\n".into(), "a".into(), "あ".into()];
+    // '\r' is not whitespace in the properties' sense (spaces, tabs, line breaks): an ordinary character
+    let mut v: Vec<String> = vec![" ".into(), "\n".into(), "a".into(), "あ".into(), "\r".into()];
     for s in [
         gen::open_tag(d, n, Kind::Expired, false),
         gen::close_tag(d, &n.tl),
